@@ -1056,7 +1056,10 @@ class Transiter(Interrupter):
         #find uncommon entry and exit lists associated with transition
         #exits, enters = framing.Framer.Uncommon(framer.actives,far.outline)
         #find uncommon and common entry and exit lists associated with transition
-        exits, enters, reexens = framing.Framer.ExEn(framer.actives, far)
+        # use full outline of active frame since framer.actives is truncated
+        # while a conditional aux suspends lower frames that must still be exited
+        nears = framer.active.outline if framer.active else framer.actives
+        exits, enters, reexens = framing.Framer.ExEn(nears, far)
 
         #check enters, if successful, perform transition
         if not framer.checkEnter(enters, exits):
